@@ -389,8 +389,12 @@ impl Neg for Duration {
         } else {
             match NANOSECONDS_PER_CENTURY.checked_sub(self.nanoseconds) {
                 Some(nanoseconds) => {
-                    // yay
-                    Self::from_parts(-self.centuries - 1, nanoseconds)
+                    // -(centuries + 1) cannot overflow, whereas -centuries does for i16::MIN.
+                    match self.centuries.checked_add(1) {
+                        Some(centuries) => Self::from_parts(-centuries, nanoseconds),
+                        // centuries == i16::MAX: -(i16::MAX + 1) is exactly i16::MIN.
+                        None => Self::from_parts(i16::MIN, nanoseconds),
+                    }
                 }
                 None => {
                     if self > Duration::ZERO {
